@@ -406,7 +406,9 @@ def _kernel_loop(prog, f, head, body, op_want, is_acc):
         return problems + ["the body is not a single element update with %s" % op_want]
     lv, op, rhs = stores[0][0], upd[0], upd[1]
     l0 = ir.strip(lv)
-    npx_of = lambda an, s_: an.read(s_, "acc->shape.strides.planes")
+    accn = f.params[0]["n"]
+    inn = f.params[1]["n"] if is_acc and len(f.params) > 1 else None
+    npx_of = lambda an, s_: an.read(s_, "%s->shape.strides.planes" % accn)
     if l0.get("k") == "idx":
         problems += L.counted_loop_problems(prog, f, head, body, npx_of)
         xv = ir.strip(l0["b"])
@@ -446,7 +448,7 @@ def _kernel_loop(prog, f, head, body, op_want, is_acc):
         return problems + ["the loop body is never executed by the analysis"]
     starts = {}
     for s_ in rec["pre"]:
-        for v, base in zip(walkers, ("acc->data", "in->data")):
+        for v, base in zip(walkers, ("%s->data" % accn, "%s->data" % inn)):
             val = s_.cells.get("%s:%s" % (f.name, v["n"]))
             want = s_.cells.get(base, L.lvar("ptr:" + base))
             starts[v["n"]] = val
